@@ -138,4 +138,18 @@ PROPS = {
         partial=["finding C18-F1: an entity block is printed once per error it carries in the command's error text (pinned by test/diagnostics/diagnostics_test.go: `Entities with diagnostics: 4`)"],
         assumptions=["`covers text equal to that value` is read literally: GetValueRange takes the FIRST occurrence of the value text in the comment"],
     ),
+    "C13": dict(
+        streams=[dict(mode="proj", quick=28, thorough=600, workers=14, driver_workers=2, timeout=3000, env={"VH_DETERMINISM": "1", "VH_VALID_ONLY": "1"})],
+        rule="well-formed generated projects (several controllers, methods spread over files a.go/b.go/c.go, types in two packages); for each, FIVE brand-new sessions (LoadGleeceConfig, pipeline.Run, routes.GenerateRoutes, swagen.GenerateSpec) per OpenAPI version plus one per engine: the byte contents of the routes file and of the spec are collected; Go randomises every map iteration, so each session samples new iteration orders of facade.files, the graph's node map and the sets; non-trivial = accepted project; distinct = distinct project",
+        trusted_base=COMMON_TB + ["Go's own randomisation of map iteration is the source of order variation (no injection hooks)", "translator harness/cmd/vh/extract_order.go for the position of the sorts"],
+        partial=["packages.Load order and glob order are exercised only as far as the file-name sort and the controller sort canonicalise them"],
+        assumptions=[],
+    ),
+    "C19": dict(
+        streams=[dict(mode="proj", quick=42, thorough=600, workers=14, driver_workers=2, timeout=3000, env={"VH_REPEAT": "1", "VH_VALID_ONLY": "1"})],
+        rule="well-formed generated projects; on ONE GleecePipeline the analysis (GenerateGraph, Validate, GenerateIntermediate) is repeated 1-3 more times: canonical flattened metadata (controllers, routes, models, import serials; set-valued import lists sorted) after every round, the same from a brand-new pipeline, and the number of graph nodes after every round; non-trivial = accepted project; distinct = distinct project",
+        trusted_base=COMMON_TB + ["canonIR (harness): sorting of set-valued import lists before comparison"],
+        partial=["the metadata cache (core/arbitrators/caching) is exercised, not modelled"],
+        assumptions=[],
+    ),
 }
